@@ -224,7 +224,6 @@ func (c *AbstractTokenizer) ReadNextToken() *Token {
 
 		// Skip unknown characters if option set.
 		if token.Type() == Unknown && c.skipUnknown {
-			c.LastTokenType = token.Type()
 			continue
 		}
 
@@ -235,7 +234,6 @@ func (c *AbstractTokenizer) ReadNextToken() *Token {
 
 		// Skips comments if option set.
 		if token.Type() == Comment && c.skipComments {
-			c.LastTokenType = token.Type()
 			continue
 		}
 
